@@ -1,10 +1,44 @@
 PROPS["C07"] = dict(
     level="exploration",
-    technique="packet-driven reference connection table predicting the callback trace, compared after every packet under ASan/UBSan",
-    level_text="tbd",
-    level_note="tbd",
+    technique="packet-driven reference connection table (family + unordered 4-tuple, per-direction interval model over a byte function, FIN/RST lifetime, "
+              "buffer/SACK limits, lazy keep-alive) predicts the callback trace of the real StreamFollower; compared after every packet under ASan/UBSan",
+    level_text="The real Tins::TCPIP::StreamFollower is fed generated histories of 1-40 interleaved IPv4/IPv6 connections (3-way handshake or mid-stream start, data both ways "
+               "through the C06 segment generator with reordering/duplication/overlap/stale segments, FIN-FIN / RST / FIN-then-RST / half-close / left-open endings, strays after "
+               "the close, tuple reuse after RST, wrap-around ISNs, adversarial neighbouring 4-tuples, generated timestamps with idle gaps around the keep-alive) as Packet objects "
+               "(built as PDU objects or parsed from bytes of an own encoder). After EVERY packet the new-stream / client-data / server-data / stream-closed / termination callbacks, "
+               "find_stream() for the touched and two other tuples, and the touched stream's public state (sequence numbers, buffered chunk/byte accounting, last_seen) are compared "
+               "with the reference table. Limit scripts stop exactly at 512 chunks / 3 MiB / 1024 SACKed intervals (no termination allowed) and then cross by one (termination with the "
+               "right reason required, once). A last packet two keep-alive periods later must flush everything; every announced connection must end exactly once.",
+    level_note="Trusted: the ~150-line reference model (Side/Inc in c07.cpp) and its reading of the statement: a connection starts on SYN-without-ACK (or first payload-carrying segment "
+               "when attaching), client = sender of that packet; it is forgotten when both sides have sent FIN or either sent RST, or when a limit is exceeded (strictly more than), "
+               "or by a lazy keep-alive sweep. Timeout oracle is the lazy one of the statement: never for idle < keep-alive (idle == keep-alive tolerated either way), exactly once, "
+               "and nothing stays tracked for >= 2 keep-alive periods after a packet was processed. Chunk/byte counts are predicted exactly only while all buffered segments of a "
+               "connection are pairwise disjoint or identical (limit scripts); otherwise scripts stay below 512 segments so that no count can exceed a limit. SACK intervals are "
+               "predicted only for blocks strictly above the cumulative ACK that do not wrap 2^32.",
     phases=[dict(name="main", harness="c07.cpp", flavor="asan", mode="random", cases=dict(quick=4000, thorough=150000))],
-    rule="tbd",
-    floors=dict(any={"distinct": 100}),
-    assumptions=[],
+    rule="case = (follower configuration: attach on/off, ack tracking on/off, keep-alive; set of connection scripts with distinct 4-tuples derived adversarially from each other; "
+         "per-script packet list; timestamps = interleaving); distinct = distinct ordered packet sequence (endpoints, flags, seq, len) + configuration; non-trivial = at least one packet, "
+         "every packet is followed by the full trace/state comparison",
+    floors=dict(any={
+        "distinct": 3000, "packets": 500000, "chk:find_stream": 1500000, "chk:delivered-bytes": 20000000, "chk:announcement": 10000, "chk:buffer-accounting": 500000,
+        "pkt:parsed-from-own-bytes": 100000, "pkt:built-as-objects": 300000,
+        "model:announce-on-syn": 8000, "model:announce-on-data(partial)": 3000, "model:packet-of-untracked-connection": 100000, "chk:packets-of-partial-streams": 50000,
+        "close:fin-fin": 2500, "close:rst-by-client": 800, "close:rst-by-server": 800, "close:fin-then-rst-same-side": 800, "close:fin-then-rst-other-side": 800,
+        "close:first-fin-keeps-connection": 5000, "timeout:of-half-closed": 500,
+        "limit:chunks-crossed": 40, "limit:bytes-crossed": 20, "limit:sack-crossed": 50,
+        "limit:at-exactly-512-chunks-kept": 100, "limit:at-exactly-3MiB-kept": 40, "limit:at-exactly-1024-sacked-kept": 100,
+        "timeout:reported-idle>keepalive": 5000, "timeout:idle>keepalive-not-yet-swept": 100000, "final-sweep:connections-flushed": 300,
+        "final-sweep:by-new-connection": 500, "final-sweep:by-untracked-packet": 500,
+        "histories:>=10-connections": 400, "histories:>=10-concurrently-tracked": 150, "histories:v4-and-v6-mixed": 600, "histories:attach-enabled": 400,
+        "tuple:client-port+1": 800, "tuple:server-port+-1": 800, "tuple:ports-swapped-between-hosts": 800, "tuple:roles-swapped-same-ports": 800,
+        "tuple:same-address-both-sides": 800, "tuple:neighbour-address": 800, "tuple:reversed-one-port-bit": 800,
+        "tuple:v4-mapped": 50, "tuple:v4-compatible": 50, "tuple:v4-embedded-leading": 50, "gen:tuple-reused-after-rst": 1000, "gen:stray-after-close": 3000,
+        "br:out-of-order": 100000, "br:slice-on-entry": 5000, "br:ignored-old": 100000}),
+    assumptions=["scripts are well formed: no SYN|FIN, no FIN|RST, no data on SYN/RST; handshake packets are neither reordered nor duplicated (data, FINs and strays are)",
+                 "a 4-tuple is reused only after a script whose last packet in time is a RST",
+                 "all segments of a connection lie within 2^31 of its delivery point (streams <= 16 KiB; 3 MiB in the byte-limit scripts)",
+                 "payload bytes are a function of (direction 4-tuple, absolute sequence number), so every retransmission carries consistent content and a byte delivered to another "
+                 "connection or direction is recognised by content",
+                 "timestamps are non-decreasing; keep-alive in {1 ms, 250 ms, 1 s, 30 s, 5 min (set or default), 1 h}",
+                 "cases containing an IPv4 tuple and an IPv6 tuple with identical leading 4 address bytes followed by zeros get the key discriminator /v4v6-alias (fixes/C07-1.md)"],
 )
